@@ -114,6 +114,7 @@ def mnmOf (s : String) : Mnm × Bool :=
     | "movaps" => some .movaps | "movups" => some .movups | "movd" => some .movd | "movq" => some .movq | "movss" => some .movss
     | "movlps" => some .movlps | "and" => some .and_ | "sub" => some .sub | "call" => some .call
     | "str" => some .str | "ldr" => some .ldr | "blr" => some .call | "strb" => some .strb | "strh" => some .strh
+    | "sxtb" => some .sxtb | "sxth" => some .sxth | "sxtw" => some .sxtw | "uxtb" => some .uxtb | "uxth" => some .uxth
     | _ => none
   match base s with
   | some m => (m, false)
